@@ -425,7 +425,7 @@ pub fn gen_c11(rng: &mut Rng, _i: u64, _tier: Tier) -> Script {
 }
 
 pub fn gen_c09(rng: &mut Rng, i: u64, tier: Tier) -> Script {
-    let sweeps = if tier == Tier::Thorough { 54 } else { 18 };
+    let sweeps = if tier == Tier::Thorough { 66 } else { 22 };
     if i < sweeps || rng.chance(1, 2) {
         return crate::props_dec::gen_c09_dec(rng, i, tier);
     }
